@@ -673,7 +673,8 @@ fn replay_incremental(case: &Value, endian: RunTimeEndian) -> Value {
 /// (value kind, attribute name under which the reader classifies it)
 /// Form-driven kinds sit under vendor attribute names that the reader does not
 /// reinterpret by name; name-driven kinds sit under their natural name.
-const RANDOM_KINDS: [(&str, &str); 24] = [
+const RANDOM_KINDS: [(&str, &str); 26] = [
+    ("RangeListRef", "DW_AT_ranges"), ("LocationListRef", "DW_AT_frame_base"),
     ("Address", "DW_AT_low_pc"), ("Block", "DW_AT_MIPS_fde"), ("Data1", "DW_AT_MIPS_loop_begin"),
     ("Data2", "DW_AT_MIPS_tail_loop_begin"), ("Data4", "DW_AT_MIPS_epilog_begin"), ("Data8", "DW_AT_MIPS_loop_unroll_factor"),
     ("Sdata", "DW_AT_MIPS_software_pipeline_depth"), ("Udata", "DW_AT_MIPS_stride"), ("ImplicitConst", "DW_AT_MIPS_has_inlines"),
@@ -703,6 +704,28 @@ fn random_value(rng: &mut Rng, kind: &str, asz: u64, word: u64) -> Value {
         "Data2" => json!({"k": kind, "v": bv(v & 0xffff, 8)}),
         "Data4" => json!({"k": kind, "v": bv(v & 0xffff_ffff, 8)}),
         "Data16" => json!({"k": kind, "v": bv128(((v as u128) << 64) | rng.next() as u128, 16)}),
+        "RangeListRef" | "LocationListRef" => {
+            // one to three entries; now and then a base address entry followed by offset pairs
+            let loc = kind == "LocationListRef";
+            let d = |rng: &mut Rng| if loc { json!([0x50 + rng.below(32)]) } else { json!([]) };
+            let mut list = Vec::new();
+            let based = rng.chance(1, 4);
+            if based {
+                list.push(json!({"k": "base", "a": bv(0x1000 * rng.range(1, 8), 8), "b": bv(0, 8), "d": []}));
+            }
+            for i in 0..rng.range(1, 3) {
+                let b = 0x100 * (i + 1) + rng.below(16);
+                let e = if based {
+                    json!({"k": "opair", "a": bv(b, 8), "b": bv(b + 1 + rng.below(64), 8), "d": d(rng)})
+                } else if rng.chance(1, 2) {
+                    json!({"k": "se", "a": bv(b, 8), "b": bv(b + 1 + rng.below(64), 8), "d": d(rng)})
+                } else {
+                    json!({"k": "slen", "a": bv(b, 8), "b": bv(1 + rng.below(64), 8), "d": d(rng)})
+                };
+                list.push(e);
+            }
+            json!({"k": kind, "list": list})
+        }
         "Flag" => json!({"k": kind, "v": rng.chance(1, 2)}),
         "FlagPresent" => json!({"k": kind}),
         "StringRef" | "LineStringRef" | "String" => {
@@ -761,7 +784,10 @@ fn random_script(rng: &mut Rng, lo: u64, hi: u64) -> Value {
         for &e in &ids {
             let n = rng.below(4);
             for _ in 0..n {
-                let (kind, name) = *rng.pick(&RANDOM_KINDS);
+                let (mut kind, mut name) = *rng.pick(&RANDOM_KINDS);
+                if e == 1 && kind == "Address" && !rng.chance(1, 8) {
+                    (kind, name) = ("Udata", "DW_AT_MIPS_stride");
+                }
                 calls.push(json!({"op": "set", "u": u + 1, "e": e, "name": name, "val": random_value(rng, kind, asz, word)}));
             }
             if e != 1 && rng.chance(1, 3) {
